@@ -84,6 +84,31 @@ def run_cases(chk, binp, cases, pf_ok, pf):
                 bad.append((c, [{"what": "a serialisation variant (member order) of the same document gives another result",
                                  "variant": {"valid": r["valid"], "errors": r["errors"][:10]}, "reference": {"valid": ref["valid"], "errors": ref["errors"][:10]}}]))
                 break
+    # one validator, several documents in a row: every document as with a fresh validator
+    rng = random.Random(chk.seed + 1010)
+    docs_only = [j["case"]["doc"] for j in J if "doc" in j["case"] and j["runs"].get("cont=true,strict=true", {}).get("outcome") == "ok"]
+    seqs = []
+    for i in range(min(len(docs_only), 16 if chk.tier == "quick" else 600)):
+        seqs.append({"id": i, "docs": [rng.choice(docs_only) for _ in range(rng.randint(2, 4))], "cont": rng.random() < 0.5})
+    reuse_calls = 0
+    if seqs:
+        for r in C.harness_parallel(binp, "reuse", seqs, shards=14):
+            if r.get("crash"):
+                continue
+            for i, (f, u) in enumerate(zip(r["fresh"], r["reused"])):
+                reuse_calls += 1
+                if f["outcome"] != "ok" or u["outcome"] != f["outcome"]:
+                    if u["outcome"] == "panic" and f["outcome"] == "ok":
+                        bad.append(({"docs": seqs[r["id"]]["docs"][:i + 1], "origin": "one validator, documents in a row", "cont": seqs[r["id"]]["cont"]},
+                                    [{"what": "a validator that validated other documents before panics where a fresh one returns", "panic": u.get("panic")}]))
+                    continue
+                if u["valid"] == f["valid"] and only_unresolved_choice(u["errors"], f["errors"]) and "unresolved-reference-choice" in chk.known:
+                    continue
+                if u["valid"] != f["valid"] or X.normalise(u["errors"]) != X.normalise(f["errors"]) or X.normalise(u["warnings"]) != X.normalise(f["warnings"]):
+                    bad.append(({"docs": seqs[r["id"]]["docs"][:i + 1], "origin": "one validator, documents in a row", "cont": seqs[r["id"]]["cont"]},
+                                [{"what": "validating a document after other validations with the same validator gives another result than with a fresh validator",
+                                  "fresh": {"valid": f["valid"], "errors": f["errors"][:8]}, "reused": {"valid": u["valid"], "errors": u["errors"][:8]}}]))
+                    break
     for c, problems in bad[:3]:
         chk.violation(problems[0]["what"], {"case": c, "problems": problems[:3]})
     if not pf_ok and not bad:
@@ -100,7 +125,7 @@ def run_cases(chk, binp, cases, pf_ok, pf):
                 "messages up to the member named), monotonicity, validity vs errors, returned vs attached warnings; non-trivial = loads and "
                 "returns in both modes; distinct by document" % REPEATS[chk.tier],
         "samples": [{k: v for k, v in J[0]["case"].items() if k != "doc"}],
-        "documents": docs, "documents_with_findings": len(bad), "variant_groups": len(groups),
+        "documents": docs, "documents_with_findings": len(bad), "variant_groups": len(groups), "calls_on_reused_validators": reuse_calls,
     })
     chk.assumptions = ["another process is represented by repetitions with fresh map orders and by the fresh-copy run of the check itself"]
 
@@ -126,6 +151,20 @@ def gen(chk):
         doc = {"swagger": "2.0", "info": {"title": "t", "version": "1"}, "paths": {"/p": {"get": {"operationId": "o", "responses": {"200": {"description": "ok"}}}}},
                "definitions": defs}
         cases.append({"doc": doc, "origin": "several undefined required properties"})
+    # several independent offenders of one rule, in different operations: an early return from a map range would show
+    fams = [b for b in G.BREAKING if b[1].__name__ in ("edit_array_no_items", "edit_bad_pattern", "edit_two_bodies", "edit_body_and_form", "edit_bad_items_pattern",
+                                                       "edit_schema_array_no_items", "edit_extra_path_param", "edit_dangling_ref", "edit_dup_param",
+                                                       "edit_path_param_not_required")]
+    for i in range(len(fams) if chk.tier == "quick" else 500):
+        rule, fn, _ = fams[i % len(fams)]
+        d = G.SpecGen(rng).spec()
+        while len(G._ops(d)) < 3:
+            d = G.SpecGen(rng).spec()
+        k = 0
+        for _ in range(rng.randint(5, 8)):
+            if fn(d, rng) is not None:
+                k += 1
+        cases.append({"doc": d, "origin": "%d offenders of the rule '%s' (%s)" % (k, rule, fn.__name__), "repeats": 8})
     g = 0
     for c in list(cases):
         if "doc" in c and rng.random() < 0.25:
@@ -133,7 +172,7 @@ def gen(chk):
             c["group"] = g
             cases.append({"doc": shuffled(c["doc"], rng), "origin": "member-order variant", "group": g})
     for c in cases:
-        c["repeats"] = REPEATS[chk.tier]
+        c.setdefault("repeats", REPEATS[chk.tier])
     return cases
 
 
@@ -151,4 +190,6 @@ def replay(chk, path):
         return run(chk)
     c = dict(payload["case"], repeats=8)
     c.pop("group", None)
+    if "docs" in c:          # a history of documents through one validator: the last one is also validated alone
+        c = {"doc": c["docs"][-1], "origin": c.get("origin"), "repeats": 2, "history": c["docs"]}
     run_cases(chk, binp, [c], pf_ok, pf)
